@@ -6,7 +6,7 @@
  * The harnesses construct *_PRECOMP objects from this header instead of running the builders
  * under the solver (libm sin/cos, pointer<->integer casts; DESIGN.md 2.1).
  *
- * usage: dump_tables M m1,m2,... N n1,n2,...
+ * usage: dump_tables M m1,m2,... N n1,n2,... [L n1,n2,...  (NTT level metadata only)]
  */
 #include <inttypes.h>
 #include <stdio.h>
@@ -122,7 +122,7 @@ static void dump_m(uint32_t m) {
   }
 }
 
-static void dump_ntt(const char* kind, q120_ntt_precomp* p, uint64_t n) {
+static void dump_ntt(const char* kind, q120_ntt_precomp* p, uint64_t n, int meta_only) {
   char nm[128];
   uint64_t nlev = n == 1 ? 0 : ilog2(n) + 1;
   printf("#define VFT_%s_NLEV_%" PRIu64 " %" PRIu64 "\n", kind, n, nlev);
@@ -143,8 +143,22 @@ static void dump_ntt(const char* kind, q120_ntt_precomp* p, uint64_t n) {
     nvec = n;
     for (uint64_t nn = 4; nn <= n; nn *= 2) nvec += nn / 2 - 1;
   }
-  dump_u64(nm, p->powomega, 4 * nvec);
-  printf("#define VFT_%s_POW_WORDS_%" PRIu64 " %" PRIu64 "\n", kind, n, 4 * nvec);
+  if (!meta_only) {
+    dump_u64(nm, p->powomega, 4 * nvec);
+    printf("#define VFT_%s_POW_WORDS_%" PRIu64 " %" PRIu64 "\n", kind, n, 4 * nvec);
+  }
+  {
+    /* largest low / high 32-bit half of the packed power table per prime lane (exhaustive scan of the table of the working tree):
+     * the per-level interval induction (C04) takes the twiddle halves as symbols bounded by these */
+    uint64_t tmax[4] = {0, 0, 0, 0}, t1max[4] = {0, 0, 0, 0};
+    for (uint64_t i = 0; i < 4 * nvec; ++i) {
+      uint64_t lo = p->powomega[i] & 0xffffffffu, hi = p->powomega[i] >> 32;
+      if (lo > tmax[i % 4]) tmax[i % 4] = lo;
+      if (hi > t1max[i % 4]) t1max[i % 4] = hi;
+    }
+    printf("#define VFT_%s_TMAX_%" PRIu64 " {%" PRIu64 ",%" PRIu64 ",%" PRIu64 ",%" PRIu64 "}\n", kind, n, tmax[0], tmax[1], tmax[2], tmax[3]);
+    printf("#define VFT_%s_T1MAX_%" PRIu64 " {%" PRIu64 ",%" PRIu64 ",%" PRIu64 ",%" PRIu64 "}\n", kind, n, t1max[0], t1max[1], t1max[2], t1max[3]);
+  }
   if (n > 1) {
     printf("static const q120_ntt_reduc_step_precomp VFT_%s_REDUC_%" PRIu64 " = {{UINT64_C(%" PRIu64 "),UINT64_C(%" PRIu64 "),UINT64_C(%" PRIu64
            "),UINT64_C(%" PRIu64 ")},UINT64_C(%" PRIu64 "),%" PRIu64 "};\n",
@@ -166,11 +180,12 @@ static void parse_list(const char* s, uint64_t* out, int* n) {
 }
 
 int main(int argc, char** argv) {
-  uint64_t ms[64], ns[64];
-  int nm = 0, nn = 0;
+  uint64_t ms[64], ns[64], ls[64];
+  int nm = 0, nn = 0, nl = 0;
   for (int i = 1; i + 1 < argc; i += 2) {
     if (!strcmp(argv[i], "M")) parse_list(argv[i + 1], ms, &nm);
     if (!strcmp(argv[i], "N")) parse_list(argv[i + 1], ns, &nn);
+    if (!strcmp(argv[i], "L")) parse_list(argv[i + 1], ls, &nl); /* level metadata only (no power table): large n */
   }
   printf("/* generated by tools/dump_tables.c from the working tree - do not edit */\n#ifndef VF_TABLES_H\n#define VF_TABLES_H\n#include <stdint.h>\n#include \"q120/q120_ntt_private.h\"\n");
   printf("#define VFT_Q1 UINT64_C(%u)\n#define VFT_Q2 UINT64_C(%u)\n#define VFT_Q3 UINT64_C(%u)\n#define VFT_Q4 UINT64_C(%u)\n", Q1, Q2, Q3, Q4);
@@ -203,10 +218,21 @@ int main(int argc, char** argv) {
   vf_cpu_avx = 1;
   for (int i = 0; i < nn; ++i) {
     q120_ntt_precomp* p = q120_new_ntt_bb_precomp(ns[i]);
-    dump_ntt("NTT", p, ns[i]);
+    dump_ntt("NTT", p, ns[i], 0);
     q120_del_ntt_bb_precomp(p);
     p = q120_new_intt_bb_precomp(ns[i]);
-    dump_ntt("INTT", p, ns[i]);
+    dump_ntt("INTT", p, ns[i], 0);
+    q120_del_intt_bb_precomp(p);
+  }
+  for (int i = 0; i < nl; ++i) {
+    int dup = 0;
+    for (int j = 0; j < nn; ++j) dup |= ns[j] == ls[i];
+    if (dup) continue;
+    q120_ntt_precomp* p = q120_new_ntt_bb_precomp(ls[i]);
+    dump_ntt("NTT", p, ls[i], 1);
+    q120_del_ntt_bb_precomp(p);
+    p = q120_new_intt_bb_precomp(ls[i]);
+    dump_ntt("INTT", p, ls[i], 1);
     q120_del_intt_bb_precomp(p);
   }
   printf("#endif\n");
